@@ -209,6 +209,64 @@ func c05Rest(c *eng.Ctx, syn *ssa.Function, load *ssa.Call) {
 	// Apply produces fails EnsureValid(true) and the archive is never saved.
 	kinds, _ := c.P.ConstsOfType(corePkg, "EntryKind")
 	c03Synchronizable(c, "R7", kinds)
+
+	// R8: the validator the new ancestor must pass before it is saved rejects
+	// for exactly the reasons confirmed on the pinned tree. Every one of those
+	// is a shape core.Apply cannot produce from valid inputs (read against
+	// apply.go); a NEW reason is a new way for the tree Apply returns to be
+	// refused, after which nothing is saved and every retry fails the same way.
+	validatorReasons(c, "R8", corePkg, "Entry.EnsureValid", "Entry", c05EntryReasons)
+	validatorReasons(c, "R8", corePkg, "Archive.EnsureValid", "Archive", c05ArchiveReasons)
+	c.Floor("R8", 2)
+}
+
+// generated with VERIF_C21_DUMP=1 and read against entry.go / archive.go.
+var c05EntryReasons = []string{
+	"",
+	"",
+	"(len(p0.Digest) == 0)",
+	"(next(range(p0.Contents))#1 == \"\")",
+	"(next(range(p0.Contents))#1 == \"\")",
+	"(next(range(p0.Contents))#2 == nil)",
+	"(next(range(p0.Contents))#2 == nil)",
+	"(p0.Problem == \"\")",
+	"(p0.Target == \"\")",
+	"p0.Executable",
+	"p0.Executable",
+	"p0.Executable",
+	"p0.Executable",
+	"p0.Executable",
+	"p1",
+	"p1",
+	"p1",
+	"¬((*synchronization/core.Entry).EnsureValid(next(range(p0.Contents))#2, p1) == nil)",
+	"¬((*synchronization/core.Entry).EnsureValid(next(range(p0.Contents))#2, p1) == nil)",
+	"¬(p0.Contents == nil)",
+	"¬(p0.Contents == nil)",
+	"¬(p0.Contents == nil)",
+	"¬(p0.Contents == nil)",
+	"¬(p0.Digest == nil)",
+	"¬(p0.Digest == nil)",
+	"¬(p0.Digest == nil)",
+	"¬(p0.Digest == nil)",
+	"¬(p0.Digest == nil)",
+	"¬(p0.Kind == 102:EntryKind)",
+	"¬(p0.Problem == \"\")",
+	"¬(p0.Problem == \"\")",
+	"¬(p0.Problem == \"\")",
+	"¬(p0.Problem == \"\")",
+	"¬(p0.Problem == \"\")",
+	"¬(p0.Target == \"\")",
+	"¬(p0.Target == \"\")",
+	"¬(p0.Target == \"\")",
+	"¬(p0.Target == \"\")",
+	"¬(p0.Target == \"\")",
+	"¬(strings.IndexByte(next(range(p0.Contents))#1, 47) == -1)",
+	"¬(strings.IndexByte(next(range(p0.Contents))#1, 47) == -1)",
+}
+var c05ArchiveReasons = []string{
+	"(p0 == nil)",
+	"¬((*synchronization/core.Entry).EnsureValid(p0.Content, p1) == nil)",
 }
 
 func p0IsPhiOf(v, want ssa.Value) bool {
